@@ -720,7 +720,10 @@ def m_matrix2(ex, st, args, kwargs, n):
     a = real_of(ex, st, args[0]) if args else None
     if a is not None and len(args) == 1 and set(kwargs) <= {'tc'}:
         return Mat11(a)
-    return m_matrix(ex, st, args, kwargs, n)
+    r = m_matrix(ex, st, args, kwargs, n)
+    if isinstance(r, Part):
+        r.fresh = True          # matrix(...) builds a new matrix
+    return r
 
 
 def bin_setup(sc):
@@ -905,3 +908,153 @@ FUNCS['_function.__rsub__'] = {
     'setup': _bin_setup_mark, 'scenarios': {'float': {'other': 'float'}},
     'on_outcomes': bin_outcomes('a - f', -1, reflected=True),
     'config': {'unroll': 8}}
+
+
+# ------------------------------------------- f * a and a * f (a a number)
+# Contract: a new function whose constant, linear part and terms are a times
+# those of f; for a < 0 the convex and the concave terms change places; for
+# a = 0 the result is the zero function of length len(f) without terms; f is
+# left alone and no part is shared.  (Multiplication by a matrix with more
+# than one entry is not decided here.)
+def _mat11_binop2(self, ex, st, op, b, n):
+    if isinstance(b, Part) and isinstance(op, ast.Mult):
+        r = b.scaled(self.a)
+        r.fresh = True
+        return r
+    return _mat11_binop(self, ex, st, op, b, n)
+
+
+Mat11.abs_binop = _mat11_binop2
+_pb1 = Part.abs_binop
+
+
+def _part_binop2(self, ex, st, op, b, n):
+    if isinstance(b, Mat11) and isinstance(op, ast.Mult):
+        r = self.scaled(b.a)
+        r.fresh = True
+        return r
+    return _pb1(self, ex, st, op, b, n)
+
+
+Part.abs_binop = _part_binop2
+
+
+def _part_rbinop(self, ex, st, op, a, n):
+    s_ = real_of(ex, st, a)
+    if isinstance(op, ast.Mult) and s_ is not None:
+        r = self.scaled(s_)
+        r.fresh = True
+        return r
+    raise Unsupported('operation on a part of a function')
+
+
+Part.abs_rbinop = _part_rbinop
+
+
+def mul_setup(sc):
+    inner = _bin_setup_mark(dict(sc, other='float'))
+
+    def setup(ex, st, fid, fn):
+        inner(ex, st, fid, fn)
+        L.ext['cvxopt.modeling._isscalar'] = lambda ex_, st_, args, kw, n: \
+            isinstance(args[0], Mat11) or real_of(ex_, st_, args[0]) \
+            is not None
+        L.pure.add('cvxopt.modeling._isscalar')
+        if sc.get('operand') == 'm11':
+            st.frames[fid]['other'] = Mat11(z3.Real('a'))
+    return setup
+
+
+def mul_outcomes(opname):
+    def on_outcomes(ex, outs):
+        class N:
+            lineno = 0
+            col_offset = 0
+        P = {'prop': 'C11'}
+        i, k = z3.Int('i'), z3.Int('k')
+        a = z3.Real('a')
+        nret = 0
+        for o in outs:
+            st = o.st
+            Lf, lc, cf, gf, hf, lv, ng, nh, _a = st.ghost['init']
+            node = N()
+            if o.kind == 'raise':
+                node.lineno = o.val[2] if len(o.val) > 2 else 0
+                ex.oblige(st, 'binop-refuses', z3.BoolVal(False), node,
+                          '%s with a number raises no exception (%s)' % (
+                              opname, o.val[0]), extra=P)
+                continue
+            nret += 1
+            at = st.ghost.get('nattrs', {})
+            ex.oblige(st, 'binop-fresh', z3.BoolVal(
+                o.val is st.ghost.get('new') and st.ghost.get('news') == 1),
+                node, '%s returns the new function it built' % opname,
+                extra=P)
+            same = all(st.ghost['attrs'].get(q) is st.ghost['attrs0'].get(q)
+                       for q in st.ghost['attrs0'])
+            ex.oblige(st, 'binop-frame', z3.BoolVal(same), node,
+                      '%s leaves the attributes of f alone' % opname,
+                      extra=P)
+            c1, l1, g1, h1 = at.get('_constant'), at.get('_linear'), \
+                at.get('_cvxterms'), at.get('_ccvterms')
+
+            def as_seq(v):
+                if isinstance(v, Ref) and st.heap[v.oid].kind == 'list' \
+                        and st.heap[v.oid].f.get('items') == []:
+                    r = Seq(Z(0), lambda kk: z3.RealVal(0))
+                    r.fresh = True
+                    return r
+                return v
+            g1, h1 = as_seq(g1), as_seq(h1)
+            ok = isinstance(c1, Part) and isinstance(l1, Part) and \
+                isinstance(g1, Seq) and isinstance(h1, Seq)
+            if not ok:
+                ex.oblige(st, 'binop-value', z3.BoolVal(False), node,
+                          'the parts of the result have their kinds',
+                          extra=P)
+                continue
+            ex.oblige(st, 'binop-fresh', z3.BoolVal(all(getattr(
+                q, 'fresh', False) for q in (c1, l1, g1, h1))), node,
+                '%s: constant, linear part and every term of the result are '
+                'new objects, not objects of f' % opname, extra=P)
+            n0 = len(st.pc)
+            st.pc += [i >= 0, i < Lf, k >= 0]
+            bc = lambda f_, ln_, j_: f_(z3.If(ln_ == 1, Z(0), j_))
+            ex.oblige(st, 'binop-value', z3.And(
+                z3.Or(c1.ln == 1, c1.ln == Lf),
+                z3.Implies(a == 0, z3.Or(c1.ln == Lf, Lf == 1)),
+                bc(c1.val, c1.ln, i) == a * bc(cf, lc, i),
+                z3.Implies(z3.And(c1.ln == 1, Lf != 1), lc == 1),
+                l1.val == a * lv), node,
+                '%s: the constant is a times the constant of f (entry by '
+                'entry; the zero function of length len(f) for a = 0), the '
+                'linear part a times the linear part' % opname, extra=P)
+            pos = z3.And(g1.n == ng, h1.n == nh,
+                         z3.Implies(k < ng, g1.val(k) == a * gf(k)),
+                         z3.Implies(k < nh, h1.val(k) == a * hf(k)))
+            neg = z3.And(g1.n == nh, h1.n == ng,
+                         z3.Implies(k < nh, g1.val(k) == a * hf(k)),
+                         z3.Implies(k < ng, h1.val(k) == a * gf(k)))
+            zero = z3.And(g1.n == 0, h1.n == 0)
+            ex.oblige(st, 'binop-value',
+                      z3.If(a > 0, pos, z3.If(a < 0, neg, zero)), node,
+                      '%s: every term is a times a term of f; for a < 0 the '
+                      'convex terms are the scaled concave ones and vice '
+                      'versa; for a = 0 there is none' % opname, extra=P)
+            del st.pc[n0:]
+        if outs:
+            ex.oblige(outs[0].st, 'covered', z3.BoolVal(nret >= 3), N(),
+                      '%s: a > 0, a < 0 and a = 0 return (%d paths)' % (
+                          opname, nret), extra=P)
+        return {'paths': len(outs), 'returns': nret}
+    return on_outcomes
+
+
+FUNCS['_function.__mul__'] = {
+    'setup': mul_setup, 'scenarios': {'float': {}, 'matrix': {'operand':
+                                                               'm11'}},
+    'on_outcomes': mul_outcomes('f * a'), 'config': {'unroll': 8}}
+FUNCS['_function.__rmul__'] = {
+    'setup': mul_setup, 'scenarios': {'float': {}, 'matrix': {'operand':
+                                                               'm11'}},
+    'on_outcomes': mul_outcomes('a * f'), 'config': {'unroll': 8}}
